@@ -113,11 +113,13 @@ CHECKS = {
              "parse_text text = items (C02's subject); multi-line values through dump/parse are compared per case.",
         technique=T.format(how="refinement of a heap-level doubly linked list to an association list, induction over histories")),
     "C10": dict(
-        text="Theorems (Props/C10.v, 15, all Closed under the global context): over any history of order_first/last/"
-             "before/after, sort_fields, indexed and unindexed set/delete, insert/append, the name index equals the filtered "
+        text="Theorems (Props/C10.v, 18, all Closed under the global context): over any history of order_first/last/"
+             "before/after, sort_fields(key=...) for every key of a six-member family (default, len, constant, X- last, first "
+             "character, case-sensitive) and generically for ANY key into a total transitive order, indexed and unindexed set/delete, insert/append, the name index equals the filtered "
              "document order in both paragraph classes, so (name,i) is the i-th occurrence in document order; dump = the "
              "reference list's dump and every step is a permitted list outcome; moves and sort are permutations of whole "
-             "fields, sort is stable and ordered by lower-cased name; after any exception the fields are unchanged up to the one "
+             "fields, sort is ordered by the key and STABLE (fields whose keys tie keep their relative order, interleaved "
+             "occurrences of a repeated name included); after any exception the fields are unchanged up to the one "
              "supplied final LF, which is exactly one LF at the paragraph's end and only when missing; and "
              "insert_append_no_merge in full: a FRESH PARSE (C01's parser model) of the dump after append/insert has the "
              "paragraphs of the document plus one more equal to the inserted one at the requested position (repeated names "
